@@ -7,7 +7,7 @@ git -C /repo worktree add -q --detach "$WT" HEAD || exit 9
 OUT=/tmp/seed_results_$$.txt; : > $OUT
 seeds="$@"; [ -n "$seeds" ] || seeds=$(ls seeded | grep '^C')
 for n in $seeds; do
-  p=${n%_*}
+  p=$(echo "$n" | cut -c1-3)
   git -C "$WT" apply "/verif/seeded/$n/patch.diff" || { echo "$n APPLY-FAILED" >> $OUT; continue; }
   out=$(RV_REPO="$WT" ./check "$p" --tier quick --no-evidence 2>&1); rc=$?
   nv=$(echo "$out" | grep -c '^VIOLATION')
